@@ -452,7 +452,7 @@ def run(ctx):
         counts = sorted(set(counts) | set(range(1, 17 if not ctx.thorough else 65)))
     jobs = []
     for count in counts:
-        edges = ("DirectedEdge", "UnDirectedEdge", "SymTwo") if count <= 4 else ("DirectedEdge",)
+        edges = ("DirectedEdge", "UnDirectedEdge", "SymTwo", "RoadLink", "FixedEndsEdge") if count <= 4 else ("DirectedEdge",)      # incl. two user edge classes
         for edge, conn, ens, rmode, smode in itertools.product(edges, (None, 0, 0.5, 1), (True, False), ("lo", "hi"), ("first", "last", "rotate")):
             if count > 6 and (smode == "last" or conn == 0.5 and rmode == "lo"):
                 continue
